@@ -14,4 +14,7 @@ for pid in sys.argv[1:]:
                  "proved": sorted(r["name"] for r in recs if r["status"] == "proved"),
                  "tiers": ["quick", "thorough"]}
     print(pid, len(base[pid]["obligations"]), "obligations,", len(base[pid]["proved"]), "proved")
+sys.path.insert(0, V)
+from vf.core import source_digest
+base["_source"] = source_digest()
 json.dump(base, open(path, "w"), indent=1, sort_keys=True)
